@@ -17,7 +17,52 @@ import shlex
 import shutil
 
 from vp import common
-from vp.common import cz, clist, copt, cstr
+from vp.common import cz, clist, copt
+
+
+def cstr(text):
+    '''Coq term for the bytes of `text` (file contents are bytes, kept as str through surrogateescape): runs of
+    printable characters and newlines as string literals, the other bytes through `bs`, appended (long `bs`
+    lists are very slow to parse)'''
+    data = text.encode('utf-8', 'surrogateescape') if isinstance(text, str) else bytes(text)
+    parts, k = [], 0
+    while k < len(data):
+        j = k
+        if 32 <= data[k] < 127 or data[k] == 10:
+            while j < len(data) and (32 <= data[j] < 127 or data[j] == 10):
+                j += 1
+            parts.append('"' + data[k:j].decode('ascii').replace('"', '""') + '"')
+        else:
+            while j < len(data) and not (32 <= data[j] < 127 or data[j] == 10):
+                j += 1
+            parts.append('bs [' + '; '.join(str(c) for c in data[k:j]) + ']%N')
+        k = j
+    if not parts:
+        return '""%string'
+    return '(' + ' ++ '.join(parts) + ')%string'
+
+
+# output that a text layer between the command and the capture file would alter: carriage returns, NUL, bytes
+# that are not UTF-8, a BOM, escape sequences, long lines
+RAW_CHUNKS = [b'a\rb', b'line\r\n', b'\r', b'\r\n\r\n', b'\n\r', b'\x00', b'a\x00b\x00', b'\xff\xfe', b'caf\xe9\n',
+              b'\xc3', b'\xed\xa0\x80', b'\xef\xbb\xbfbom', b'\x1b[31mred\x1b[0m', b'\x80abc', b'tab\there\n',
+              b'\xc3\xa9t\xc3\xa9', b'', b'x' * 700 + b'\n', b'\x0c\x0b', b'\xf0\x9f\x98\x80', b'no newline at end']
+
+
+def gen_segments(rng, long_ok=False):
+    '''what one command writes: (stream, bytes) pieces in the order it writes them (1 = stdout, 2 = stderr)'''
+    segs = []
+    for _ in range(rng.choice([1, 2, 3, 4, 6])):
+        chunk = rng.choice(RAW_CHUNKS)
+        if long_ok and rng.random() < 0.05:
+            chunk = bytes(rng.randrange(256) for _ in range(997)) * 200      # ~200 kB, more than a pipe holds
+        segs.append([rng.choice([1, 2]), chunk.hex()])
+    return segs
+
+
+def seg_text(segs, stream=None):
+    data = b''.join(bytes.fromhex(h) for st, h in segs if stream is None or st == stream)
+    return data.decode('utf-8', 'surrogateescape')
 
 IMPORTS = '''From Coq Require Import String List ZArith.
 From VV Require Import Lib.Base C19.Model C19.Code.
@@ -67,6 +112,8 @@ def gen_cmd(rng, fail_bias):
         code = rng.choice([1, 1, 2, 3, 7, 42, 126, 127, 128, 255])
     else:
         code = 0
+    if rng.random() < 0.25:
+        return ['raw', gen_segments(rng, long_ok=True), code]
     return ['sh', rng.choice(TEXTS), rng.choice(TEXTS), code]
 
 
@@ -114,6 +161,13 @@ def gen_cases(ctx):
         cases.append({'mode': 'sched', 'tasks': [{'name': n, 'cmds': c} for n, c in zip(group[::-1], specs)]})
     for name in NAMES_BAD:
         cases.append({'mode': 'direct', 'tasks': [{'name': name, 'cmds': [ok, ok]}]})
+    # byte-exact capture: every special chunk on stdout and on stderr; the status follows the exit codes only
+    raw_cmds = [['raw', [[1, c.hex()], [2, c.hex()], [1, b'|' .hex()], [2, c[::-1].hex()]], 0] for c in RAW_CHUNKS]
+    for k in range(0, len(raw_cmds), 3):
+        cases.append({'mode': 'direct' if k % 2 else 'sched',
+                      'tasks': [{'name': 'raw', 'cmds': raw_cmds[k:k + 3] + [['raw', [[2, b'end\r\n'.hex()]], 5]]}]})
+    cases.append({'mode': 'direct', 'tasks': [{'name': 'big', 'cmds': [
+        ['raw', [[1, (bytes(range(256)) * 800).hex()], [2, (b'\r\n' * 50000).hex()]], 0], ok]}]})
     # exhaustive small: failure kind x position for lists of 1..3 commands
     for n in (1, 2, 3):
         for pos in range(n):
@@ -162,6 +216,18 @@ def build_cli(spec, ident, mark, wdir):
         return ['sh', '-c', SH, 'sh', spec[1], spec[2], str(spec[3]), str(ident), mark]
     if kind == 'kill':
         return ['sh', '-c', KILL, 'sh', spec[1], str(spec[2]), str(ident), mark]
+    if kind == 'raw':
+        # the pieces come from files (any byte can be written that way), one cat per piece, in order
+        segdir = os.path.join(wdir, 'seg')
+        os.makedirs(segdir, exist_ok=True)
+        script = []
+        for k, (stream, hexa) in enumerate(spec[1]):
+            path = os.path.join(segdir, f'{ident}-{k}')
+            with open(path, 'wb') as fil:
+                fil.write(bytes.fromhex(hexa))
+            script.append(f'cat {path}' + (' >&2' if stream == 2 else ''))
+        script.append('echo "$1" >> "$2"; exit "$3"')
+        return ['sh', '-c', '; '.join(script), 'sh', str(ident), mark, str(spec[2])]
     sub = spec[1]
     if sub == 'abs':
         return ['/nonexistent-c19/prog', 'arg one', "it's"]
@@ -182,6 +248,8 @@ def spec_outcome(spec):
         return True, spec[3], spec[1], spec[2]
     if spec[0] == 'kill':
         return True, -spec[2], spec[1], ''
+    if spec[0] == 'raw':
+        return True, spec[2], seg_text(spec[1], 1), seg_text(spec[1], 2)
     return False, None, '', ''
 
 
@@ -368,7 +436,13 @@ def oracle(ctx, case, obs):
 STUB = """#!/bin/sh
 case "$1" in %(second)s) step=1;; *) step=0;; esac
 { printf '%%s\\037' "%(ident)s" "$step" "$@"; echo; } >> "%(mark)s"
-cat "$0.$step.out"; cat "$0.$step.err" >&2
+n=0
+while :; do
+  if [ -f "$0.$step.$n.1" ]; then cat "$0.$step.$n.1"
+  elif [ -f "$0.$step.$n.2" ]; then cat "$0.$step.$n.2" >&2
+  else break; fi
+  n=$((n+1))
+done
 code=$(cat "$0.$step.code")
 %(vanish)s
 exit "$code"
@@ -386,6 +460,8 @@ def gen_code_task(rng, name):
     task = {'kind': kind, 'name': name,
             'exe': 'script' if rng.random() < 0.8 else rng.choice(['missing', 'vanish']),
             'steps': [[rng.choice(TEXTS), rng.choice(TEXTS), c0], [rng.choice(TEXTS), rng.choice(TEXTS), c1]]}
+    if rng.random() < 0.4:      # pieces on both streams in a known order, bytes that a text layer would alter
+        task['steps'] = [[gen_segments(rng), c0], [gen_segments(rng), c1]]
     if kind == 'checkout':
         task['flags'] = rng.choice(CODE_FLAGS)
         task['ref'] = rng.choice([None, None, 'v1.0', 'main', 'feature/x'])
@@ -419,6 +495,14 @@ def gen_code_cases(ctx):
             task.update({'flags': None, 'ref': None} if kind == 'checkout'
                         else {'configure_flags': None, 'build_flags': None, 'targets': None})
             cases.append({'mode': 'code', 'tasks': [task]})
+    inter = [[1, b'o1\r\n'.hex()], [2, b'e1\r'.hex()], [1, b'o2\x00\xff'.hex()], [2, b'e2 caf\xe9\n'.hex()],
+             [1, b'o3'.hex()], [2, b''.hex()], [2, b'e3\n'.hex()]]
+    for kind in ('checkout', 'build'):
+        for c0, c1 in ((0, 0), (0, 2), (3, 0)):
+            task = {'kind': kind, 'name': 'inter', 'exe': 'script', 'steps': [[inter, c0], [inter[::-1], c1]]}
+            task.update({'flags': None, 'ref': None} if kind == 'checkout'
+                        else {'configure_flags': None, 'build_flags': None, 'targets': None})
+            cases.append({'mode': 'code', 'tasks': [task]})
     ctx.count('code_corpus', len(cases))
     nrand = 60 if ctx.tier == 'quick' else 1500
     for _ in range(nrand):
@@ -446,11 +530,22 @@ def code_steps(task, exe, out_root, src_dir):
     return [[exe] + list(task['configure_flags'] or []) + [src_dir], build + list(task['build_flags'] or [])]
 
 
+def step_segments(st):
+    '''a step is [out, err, code] (out on stdout, then err on stderr) or [[(stream, hex), ...], code] (pieces
+    written alternately to the two streams, in this order)'''
+    if isinstance(st[0], list):
+        return st[0], st[1]
+    return [[1, st[0].encode('utf-8').hex()], [2, st[1].encode('utf-8').hex()]], st[2]
+
+
 def code_outcomes(task):
-    """(started, code, out, err) of the two steps when they are executed"""
+    """(started, code, what the step writes into the shared log, '') of the two steps when they are executed"""
     if task['exe'] == 'missing':
         return [(False, None, '', ''), (False, None, '', '')]
-    outs = [(True, st[2], st[0], st[1]) for st in task['steps']]
+    outs = []
+    for st in task['steps']:
+        segs, code = step_segments(st)
+        outs.append((True, code, seg_text(segs), ''))
     if task['exe'] == 'vanish':
         outs[1] = (False, None, '', '')
     return outs
@@ -476,10 +571,13 @@ def run_code_case(case, wdir, mods):
                                   'ident': k, 'mark': mark,
                                   'vanish': 'rm -f "$0"' if task['exe'] == 'vanish' else ''})
             os.chmod(exe, 0o755)
-            for step, (out, err, code) in enumerate(task['steps']):
-                for ext, val in (('out', out), ('err', err), ('code', str(code))):
-                    with open(f'{exe}.{step}.{ext}', 'w', encoding='utf-8') as fil:
-                        fil.write(val)
+            for step, st in enumerate(task['steps']):
+                segs, code = step_segments(st)
+                for n, (stream, hexa) in enumerate(segs):
+                    with open(f'{exe}.{step}.{n}.{stream}', 'wb') as fil:
+                        fil.write(bytes.fromhex(hexa))
+                with open(f'{exe}.{step}.code', 'w') as fil:
+                    fil.write(str(code))
         clis_all.append(code_steps(task, exe, out_root, src_dir))
         if task['kind'] == 'checkout':
             cls = type('StubCheckout', (CheckoutTask,), {'GIT': exe})
@@ -508,7 +606,7 @@ def run_code_case(case, wdir, mods):
             for fname in sorted(filenames):
                 full = os.path.join(dirpath, fname)
                 with open(full, 'rb') as fil:
-                    files['/'.join([tag] + rel_components(full, top)[1:])] = fil.read().decode('utf-8', 'replace')
+                    files['/'.join([tag] + rel_components(full, top)[1:])] = fil.read().decode('utf-8', 'surrogateescape')
             if dirpath != top:
                 files.setdefault('/'.join([tag] + rel_components(dirpath, top)[1:]) + '/', '<dir>')
     calls = []
@@ -624,6 +722,10 @@ def model_applies(case, obs):
     '''names the file system refuses (too long) are outside the model: oracle only'''
     if 'run_failed' in obs:
         return False
+    if sum(len(content) for _, content in obs['files']) > 2500:
+        return False
+    if sum(len(h) // 2 for t in case['tasks'] for spec in t['cmds'] if spec[0] == 'raw' for _, h in spec[1]) > 2500:
+        return False          # (too big for a Coq literal: the oracle compares these byte for byte)
     for tspec, tob in zip(case['tasks'], obs['tasks']):
         if len(tspec['name'].encode('utf-8', 'surrogateescape')) > 255:
             return False
@@ -676,6 +778,8 @@ def run(ctx):
                 ctx.count('unusable_name')
             for spec in tspec['cmds']:
                 ctx.count('cmd_' + spec[0] + ('' if spec[0] != 'sh' else ('_zero' if spec[3] == 0 else '_nonzero')))
+                if spec[0] == 'raw':
+                    ctx.count('raw_bytes', sum(len(h) // 2 for _, h in spec[1]))
         if model_applies(case, obs):
             compared.append((case, obs))
         else:
